@@ -10,12 +10,22 @@ PROP = {
         {"name": "sweep32", "mode": "enum", "hang_s": 60},
         {"name": "toa", "quick": 3000000, "thorough": 20000000, "maxlen": 32},
         {"name": "ato", "quick": 4000000, "thorough": 20000000, "maxlen": 40},
+        {"name": "vt100", "quick": 300000, "thorough": 3000000, "maxlen": 16},
         {"name": "ato_empty", "quick": 300000, "thorough": 3000000, "maxlen": 24},
         {"name": "libc_itoa", "quick": 1500000, "thorough": 10000000, "maxlen": 32},
         {"name": "dprint", "quick": 1500000, "thorough": 10000000, "maxlen": 32},
         {"name": "dprint_buf", "quick": 300000, "thorough": 3000000, "maxlen": 32},
     ],
     "fuzz": [{"name": "ato", "secs": 45, "maxlen": 40}, {"name": "toa", "secs": 30, "maxlen": 32}],
+    # the parsers once more with plain char unsigned, as on the ARM / RISC-V targets the library is written for
+    "variants": [{
+        "name": "uchar",
+        "harness": [{"src": "V:harness/C07.cpp", "flags": ["-funsigned-char", "-DC07_VARIANT_UCHAR"]}],
+        "units": [{"src": "R:igris/util/numconvert.c", "opt": "-O1", "flags": ["-funsigned-char"]},
+                  {"src": "R:igris/dprint/dprint_func_impl.c", "flags": ["-funsigned-char"]}]
+                 + vpdriver.libc_units(["stdlib/itoa.c", "stdlib/atol.c"], ["-funsigned-char"]),
+        "targets": [{"name": "ato_uchar", "quick": 1000000, "thorough": 8000000, "maxlen": 40}],
+    }],
 }
 
 TEXT = {
